@@ -75,3 +75,7 @@ chk("C15","exploration",
  "Generated thread programs on one handle (1-4 reader threads holding sessions across stamp-set reads and proofs, 1-3 writer threads committing blocking / non-blocking / via overlays, a rollback phase) under seeded schedule perturbation at nomt's lock points: every session must see exactly one version (values, prev_root, proofs), deferred non-blocking commits hand the changeset back, the successful commits form one chain whose fold equals the final state, losers get Err, and nothing hangs.",
  "Interleavings are sampled, not enumerated; the harness does not own nomt's scheduler. Known finding KF-C15-1 (warm-up task starvation when one thread holds two sessions) is excluded from generation and pinned as a replay.",
  "property-based testing: generated concurrent thread programs + version-stamp / linearisation oracle under seeded schedule perturbation (proptest)","DESIGN.md §3 C15")
+chk("C20","exploration",
+ "Generated scenarios over one directory (1-3 rounds): racing Nomt::open calls from 1-5 threads and 0-3 child processes on an existing store or an absent directory (at most one may win; on an existing store exactly one), open attempts from threads and processes while the winner is alive idle or mid-commit (all must fail; with an idle holder the directory's content, lengths and modification times are unchanged), eight ways the holder ends (drop, drop after an unfinished session with warm-up, after an uncommitted changeset, after an injected failing commit, panic, SIGKILL idle / mid-commit, orderly child exit), then an immediate reopen that must succeed, show an allowed state and accept a commit; the directory is watched through the I/O hook and content stamps for writers that outlive the handle.",
+ "Timings are sampled (openers are released together; the OS decides). A creation race that nobody wins (the code's documented TOCTOU) is permitted and counted: no handle existed. Late fsyncs are counted, not judged (they write nothing).",
+ "property-based testing: generated multi-thread / multi-process open scenarios + exclusivity, untouched-directory and quiescence oracles (proptest, I/O hook)","DESIGN.md §3 C20")
